@@ -100,7 +100,7 @@ func (a keyVal) String() string {
 func init() {
 	core.Register(&core.Rule{
 		Name: "R-MEMOKEY",
-		Doc: "A memo table is filled under the key it was asked with. For every type of the module with a lookup/store method pair over the same key types (Get(k...) V with Set/Insert(k..., V): the lazy DFA's start table and state cache), a function that looks a key up and - itself or through helpers up to two calls deep, arguments followed through parameter binding; a helper's store counts when its key uses a parameter of the helper - stores into a table of the same type stores under the very key values it looked up (same SSA values, or equal constants). A store under another key (a helper shared by the anchored and the unanchored lookup that always records 'unanchored') hands the entry to the next caller that asks with that other key: after an anchored search, an unanchored search from the same kind of position runs anchored and answers 'no match' for a match that begins later (C14 exact-or-declined, C13 no history). Unknown key arguments are undecided, not passed.",
+		Doc: "A memo table is filled under the key it was asked with. For every type of the module with a lookup/store method pair over the same key types (Get(k...) V with Set/Insert(k..., V): the lazy DFA's start table and state cache), a function that looks a key up and - itself or through helpers up to two calls deep, arguments followed through parameter binding; a helper's store counts when its key uses a parameter of the helper - stores into a table of the same type stores under the very key values it looked up (same SSA values, or equal constants). A store under another key (a helper shared by the anchored and the unanchored lookup that always records 'unanchored') hands the entry to the next caller that asks with that other key: after an anchored search, an unanchored search from the same kind of position runs anchored and answers 'no match' for a match that begins later (C14 exact-or-declined, C13 no history). Unknown key arguments are undecided, not passed. (b) Inside the store method itself, an element index whose type is the named type of a key parameter (StartKind) is that parameter: a second store under a constant of the type files the value under a key it was not computed for.",
 		Min: 3, NeedSSA: true,
 		Run: func(p *core.Prog) *core.RuleResult {
 			res := &core.RuleResult{}
@@ -197,6 +197,70 @@ func init() {
 					}
 				}
 				return out
+			}
+			// (b) the store method itself files the value under its own key: an element index whose type is the named
+			// type of a key parameter is that parameter, not another value of the type
+			for nm, mps := range pairs {
+				for _, mp := range mps {
+					sf := p.SSAFunc(mp.set)
+					if sf == nil || sf.Blocks == nil || len(sf.Params) < 1+mp.nkeys {
+						continue
+					}
+					keyOf := map[types.Type]*ssa.Parameter{}
+					for _, prm := range sf.Params[1 : 1+mp.nkeys] {
+						if n, ok := prm.Type().(*types.Named); ok {
+							if _, basic := n.Underlying().(*types.Basic); basic {
+								keyOf[n] = prm
+							}
+						}
+					}
+					if len(keyOf) == 0 {
+						continue
+					}
+					for _, b := range sf.Blocks {
+						for _, in := range b.Instrs {
+							st, ok := in.(*ssa.Store)
+							if !ok {
+								continue
+							}
+							addr := st.Addr
+							for d := 0; d < 6; d++ {
+								ia, ok := addr.(*ssa.IndexAddr)
+								if !ok {
+									if fa, ok := addr.(*ssa.FieldAddr); ok {
+										addr = fa.X
+										continue
+									}
+									break
+								}
+								idx := ia.Index
+								for {
+									if cv, ok := idx.(*ssa.Convert); ok {
+										idx = cv.X
+										continue
+									}
+									if ct, ok := idx.(*ssa.ChangeType); ok {
+										idx = ct.X
+										continue
+									}
+									break
+								}
+								if prm, isKey := keyOf[idx.Type()]; isKey {
+									o := core.Obligation{Key: kc.Key("R-MEMOKEY", core.FuncName(sf), "element of "+nm.Obj().Name()+" filed under the key parameter"), Pos: p.Pos(st.Pos()), Nontrivial: true}
+									if idx == ssa.Value(prm) {
+										o.Status = core.Discharged
+										o.Detail = "the " + prm.Type().(*types.Named).Obj().Name() + " index is the method's key parameter " + prm.Name()
+									} else {
+										o.Status = core.Violated
+										o.Detail = fmt.Sprintf("the store method writes the slot of %s, not of its key parameter %s: the entry computed for one key is handed to the next caller that asks with the other (a start state computed behind a line feed served to a search from position 0)", idx.String(), prm.Name())
+									}
+									res.Obligations = append(res.Obligations, o)
+								}
+								addr = ia.X
+							}
+						}
+					}
+				}
 			}
 			var fns []*ssa.Function
 			for _, fn := range p.SrcFuncs() {
